@@ -10,6 +10,7 @@ package main
 import (
 	"errors"
 	"fmt"
+	"os"
 	"sort"
 	"strings"
 
@@ -39,6 +40,7 @@ var quickStates = []stateSpec{
 	{k: kind{multi: false, vt: true, skip: true}, nprep: 1, ahead: 0, ntx: 2, poolMode: 1},
 	{k: kind{multi: true, vt: true}, nprep: 1, ahead: 0, ntx: 0, poolMode: 0},
 	{k: kind{multi: false, sr: true, vt: true}, nprep: 1, ahead: 3, ntx: 4, poolMode: 2},
+	{k: kind{multi: true, sr: true, vt: true, skip: true}, nprep: 1, ahead: 2, ntx: 3, poolMode: 1},
 }
 
 func randomSpec(r *prng.R) stateSpec {
@@ -202,7 +204,8 @@ func (st *state) rootOnClean(b *block.Block) (util.Uint256, error) {
 }
 
 func (st *state) vectorOf(known []hdrInfo, b *block.Block) vector {
-	v := vector{storeOK: int(b.PrimaryIndex) < st.v.nvals} // GAS.OnPersist pays validators[PrimaryIndex]
+	// GAS.OnPersist pays validators[PrimaryIndex] (only when the block has transactions)
+	v := vector{storeOK: int(b.PrimaryIndex) < st.v.nvals || len(b.Transactions) == 0}
 	switch {
 	case b.Index < st.h+1:
 		v.idxRel = -1
@@ -352,7 +355,10 @@ var corpus = []struct {
 	{1, "tx-witness-bitflip-first"},                   // tx pooled, block copy with corrupted witness (ec0103c)
 	{0, "inblock-conflict-after-higher-fee+resigned"}, // [t1,t2], t2.Conflicts={t1} (d0c3ec8)
 	{0, "inblock-conflict-before-lower-fee+resigned"},
-	{6, "dup-last"}, // [a,b,c,c] with the hash of [a,b,c], VerifyTransactions off (ab64b57)
+	{6, "dup-last"},                 // [a,b,c,c] with the hash of [a,b,c], VerifyTransactions off (ab64b57)
+	{7, "tx-witness-bitflip-first"}, // VerifyTransactions off: accepted tx stayed in the mempool (a280843)
+	{12, "dup-last"},                // storeBlock fails after AddMPTBatch (next header's PrevStateRoot): trie damaged
+	{12, "add-valid-tx"},
 }
 
 // safeBuild turns a refusal of the valid chain itself (prefix, valid next block, valid headers, a
@@ -409,7 +415,7 @@ func poolIDs(p []util.Uint256) string {
 }
 
 // attempt submits b to the node and prints the op and observation lines; returns the class and snapshots.
-func attempt(o *hx.Out, k int, st *state, c *chainT, known []hdrInfo, b *block.Block, v vector, tag string) (string, *snap, *snap, error) {
+func attempt(o *hx.Out, k int, st *state, c *chainT, known []hdrInfo, b *block.Block, v vector, tag string, untied bool) (string, *snap, *snap, error) {
 	before := c.snapshot()
 	sigFact, line := st.blockLine("addblock", known, b, v)
 	if sigFact != "" {
@@ -421,6 +427,9 @@ func attempt(o *hx.Out, k int, st *state, c *chainT, known []hdrInfo, b *block.B
 		return classify(err)
 	})
 	after := c.snapshot()
+	if os.Getenv("VERIF_DEBUG") != "" {
+		fmt.Fprintf(os.Stderr, "case %d %s: %s: %v\n", k, tag, res, err)
+	}
 	var obs string
 	if res == "ok" {
 		stored := "?"
@@ -458,7 +467,14 @@ func attempt(o *hx.Out, k int, st *state, c *chainT, known []hdrInfo, b *block.B
 		}
 		obs = fmt.Sprintf("%s bh=%d hh=%d ledger=%s pool=%s db=%s", res, after.bh, after.hh, ledger, pool, db)
 	}
-	o.Line(line, obs)
+	if untied {
+		// The model treats a failed storeBlock as traceless; the real node's in-memory trie is not
+		// (finding failed-store-corrupts-trie), so what it answers next is not predicted, only judged.
+		o.Line("note follow-up-after-failed-execution-not-tied", "ok")
+		o.Count("untied-follow-up")
+	} else {
+		o.Line(line, obs)
+	}
 	o.Count(tag + ":" + strings.SplitN(res, "(", 2)[0])
 	return res, before, after, err
 }
@@ -510,7 +526,8 @@ func runCase(o *hx.Out, k int, st *state, cd *cand, r *prng.R) {
 		runHeadersCase(o, k, st, cd, r, c, known, fail)
 		return
 	}
-	recordedOther := false // a header with a hash other than the valid block's was recorded
+	recordedOther := false   // a header with a hash other than the valid block's was recorded
+	failedAfterExec := false // the first attempt executed another transaction list and failed in storeBlock afterwards
 	if cd.decErr {
 		o.Line("undecodable", "ok")
 		o.Count("undecodable")
@@ -540,7 +557,8 @@ func runCase(o *hx.Out, k int, st *state, cd *cand, r *prng.R) {
 				v.newRoot = rt
 			}
 		}
-		res, before, after, err := attempt(o, k, st, c, known, b, v, "first")
+		res, before, after, err := attempt(o, k, st, c, known, b, v, "first", false)
+		failedAfterExec = err != nil && strings.Contains(err.Error(), "PrevStateRoot mismatch") && !sameList
 
 		// ---- the property's oracle on the real node ----
 		if res == "ok" {
@@ -690,20 +708,33 @@ func runCase(o *hx.Out, k int, st *state, cd *cand, r *prng.R) {
 	b := mkBlock(fieldsOf(&st.next.Header), st.next.Transactions)
 	v := st.vectorOf(known, b)
 	v.newRoot = st.roots[st.h+1]
-	res, _, after, err := attempt(o, k, st, c, known, b, v, "then-valid")
+	res, _, after, err := attempt(o, k, st, c, known, b, v, "then-valid", failedAfterExec)
 	if recordedOther || spec.badNextPsr {
 		o.Count("then-valid:not-demanded")
 		return
 	}
+	keyOf := func(key string) string {
+		if failedAfterExec {
+			return "failed-store-corrupts-trie"
+		}
+		return key
+	}
 	if res != "ok" {
-		fail("valid-refused-after-reject", "after the rejected block the valid block is refused: %v", err)
+		fail(keyOf("valid-refused-after-reject"), "after the rejected block the valid block is refused: %v", err)
 		return
 	}
 	if after.root != st.refRoot {
-		fail("valid-differs-after-reject", "state root %s, on a clean replica %s", short(after.root), short(st.refRoot))
+		fail(keyOf("valid-differs-after-reject"), "state root %s, on a clean replica %s", short(after.root), short(st.refRoot))
 	}
 	if after.dbDigest != st.refDigest {
-		fail("valid-differs-after-reject", "database digest %s, on a clean replica %s", after.dbDigest, st.refDigest)
+		add, chg, rem := dbDiff(st.refDB, after.db)
+		trim := func(l []string) []string {
+			if len(l) > 4 {
+				return append(l[:4:4], fmt.Sprintf("...(%d)", len(l)))
+			}
+			return l
+		}
+		fail(keyOf("valid-differs-after-reject"), "database differs from a clean replica's after the valid block: extra keys %v, different values %v, missing keys %v", trim(add), trim(chg), trim(rem))
 	}
 	if !sameHashes(after.pool, st.refPool) {
 		fail("valid-differs-after-reject", "mempool %s, on a clean replica %s", poolIDs(after.pool), poolIDs(st.refPool))
